@@ -40,6 +40,13 @@ def main():
     seed_dir, prop, name = a[0], a[1], a[2]
     feats = a[a.index("--features") + 1] if "--features" in a else None
     demo_flags = a[a.index("--demo-flags") + 1] if "--demo-flags" in a else None
+    notes = os.path.join(seed_dir, "NOTES.md")
+    if demo_flags is None and os.path.exists(notes):
+        import re
+        m = re.search(r"(?m)^\W*DEMO-FLAGS:\s*(.+)$", open(notes).read())
+        if m:
+            f = m.group(1).replace("`", "").replace("cargo test", "").replace("--offline", "").replace("--test seed_demo", "").strip()
+            demo_flags = f
     tier = a[a.index("--tier") + 1] if "--tier" in a else "quick"
     out_dir = os.path.join(VERIF, "seeded", name)
     os.makedirs(out_dir, exist_ok=True)
